@@ -21,7 +21,7 @@ class RandomAgent(AbstractScriptedAgent, discriminator="random-agent"):
 
         type: str = "random-agent"
 
-    def get_action(self) -> Tuple[str, Dict]:
+    def get_action(self, obs: ObsType = None, timestep: int = 0) -> Tuple[str, Dict]:
         """Sample the action space randomly.
 
         :param obs: Current observation for this agent, not used in RandomAgent
